@@ -114,6 +114,9 @@ def check_ready_clause(ctx, rule):
                          "Ready(Some) is guarded by observed <= version: a subscriber that has observed the current version is ready again (never becomes pending)")
         elif wrong:
             ctx.violated(rule + "b", f, "ready-iff-unobserved", where, "Ready(Some) is guarded by a comparison of the wrong polarity between observed and current version")
+        elif conds.cmp_holds(facts, "Ne", is_obs, _is_version):
+            ctx.violated(rule + "b", f, "ready-iff-unobserved", where,
+                         "Ready(Some) is guarded by observed != version: that also holds when the current version is *smaller* than the observed one, i.e. after close() stored the sentinel 0 - a subscriber that was up to date gets its last value once more (with observed := 0) before it sees None")
         elif any(f2[0] == "cmp" for f2 in conds.bare(facts)):
             ctx.undecided(rule + "b", f, "ready-iff-unobserved", where, "guard of Ready(Some) not recognised")
         else:
